@@ -67,7 +67,10 @@ _GEN = re.compile(r"^(\d+) states generated, (\d+) distinct states found")
 EARLY_STOP = int(os.environ.get("VERIF_EARLY_STOP", "40"))      # rejected traces per shard after which a validation run is cut short
 
 
-def _run(cmd: list[str], cwd: str, env: dict, log: str, timeout: float, stop_after_viol: int = 0) -> tuple[int, str]:
+_PROGRESS = re.compile(r"^Progress\(\d+\) at [^:]+:\d+:\d+: ([\d,]+) states generated.*?, ([\d,]+) states left on queue", re.M)
+
+
+def _run(cmd: list[str], cwd: str, env: dict, log: str, timeout: float, stop_after_viol: int = 0, stall_s: float = 0.0) -> tuple[int, str]:
     """
     rc -9: timeout; rc -8: stopped early because the log already reports `stop_after_viol` rejected traces (TLC prints the
     whole state for every failed invariant, which makes runs with hundreds of rejections very slow; the remaining traces of
@@ -89,20 +92,21 @@ def _run(cmd: list[str], cwd: str, env: dict, log: str, timeout: float, stop_aft
                 p.wait()
                 rc = -9
                 break
-            if stop_after_viol:
+            if stall_s:
+                # a model-checking run whose progress reports repeat the same "states generated" figure for stall_s seconds is
+                # dead (observed once: TLC's disk state queue writer thread had died and all 16 workers waited for it)
                 try:
-                    with open(log, errors="replace") as rf:
-                        rf.seek(pos)
-                        chunk = rf.read()
-                        pos = rf.tell()
+                    txt = open(log, errors="replace").read()[-4000:]
                 except OSError:
-                    chunk = ""
-                for m in re.finditer(r'<<"VIOL", "[^"]+", "([^"]+)"', chunk):
-                    seen.add(m.group(1))
-                if len(seen) >= stop_after_viol:
+                    txt = ""
+                figs = _PROGRESS.findall(txt)
+                # (TLC reports once a minute; during a long liveness check it prints no progress lines at all, so only
+                # REPEATED identical reports count)
+                k = max(3, int(stall_s // 60))
+                if len(figs) >= k and len(set(figs[-k:])) == 1 and figs[-1][0] != "0" and figs[-1][1] != "0":
                     p.kill()
                     p.wait()
-                    rc = -8
+                    rc = -7
                     break
     return rc, open(log, errors="replace").read()
 
@@ -208,11 +212,16 @@ def model_check(module: str, cfg_path: str, workdir: str, workers: int = 16, tim
     if env:
         e.update(env)
     t0 = time.time()
-    rc, out = _run(cmd, spec_dir, e, log, timeout)
+    rc, out = _run(cmd, spec_dir, e, log, timeout, stall_s=420.0)
+    if rc == -7:
+        # stalled: one retry with another worker count (fresh metadir)
+        shutil.rmtree(meta, ignore_errors=True)
+        cmd2 = [("8" if c == str(workers) and cmd[i - 1] == "-workers" else c) for i, c in enumerate(cmd)]
+        rc, out = _run(cmd2, spec_dir, e, log, timeout, stall_s=420.0)
     res = {"ok": False, "generated": 0, "distinct": 0, "violated": [], "log": log, "rc": rc,
            "wall_s": time.time() - t0, "lines": []}
-    if rc == -9:
-        raise TLCFailure(f"TLC timed out on {module} ({cfg_path})")
+    if rc in (-9, -7):
+        raise TLCFailure(f"TLC timed out or stalled on {module} ({cfg_path})")
     for ln in out.splitlines():
         m = _MCRES.match(ln)
         if m:
